@@ -566,7 +566,9 @@ pub fn check(h: &History, ex: &Exec, obs: &mut Obs) -> Vec<Violation> {
             K::F => {
                 if ok {
                     st.finished = true;
-                } else if !st.finished {
+                } else if !st.finished && !(cfg.width > 65_535 || cfg.height > 65_535) {
+                    // a finish rejected for unrepresentable dimensions is refused before anything
+                    // is written: the muxer is not finished and every later call is still judged
                     st.failed_finish = true;
                 }
             }
